@@ -72,6 +72,10 @@ def gen_tx(rng, cls='bitcoin.core:CTransaction', min_in=0):
     mut = 'Mutable' in cls
     nin = rng.randint(min_in, 3)
     nout = rng.randint(0, 3)
+    if rng.random() < 0.03:
+        nin = rng.choice([252, 253])
+    if rng.random() < 0.03:
+        nout = rng.choice([252, 253])
     vin = [gen_txin(rng, 'bitcoin.core:CMutableTxIn' if mut else 'bitcoin.core:CTxIn') for _ in range(nin)]
     vout = [gen_txout(rng, 'bitcoin.core:CMutableTxOut' if mut else 'bitcoin.core:CTxOut') for _ in range(nout)]
     wit = gen_txwitness(rng, rng.choice([0, nin]))
@@ -87,7 +91,7 @@ def gen_header(rng, cls='bitcoin.core:CBlockHeader'):
 
 
 def gen_block(rng):
-    ntx = rng.choice([0, 1, 2, 3, 5])
+    ntx = rng.choice([0, 1, 2, 3, 5, 6, 9, 252, 253])
     zero = {'__bytes__': [0] * 32, 'cls': 'builtins:bytes'}
     return {'__obj__': 'bitcoin.core:CBlock', 'args': [rng.choice([1, 2, -1]), _b(rng, 32), zero, _u32(rng),
                                                      _u32(rng), _u32(rng),
